@@ -609,6 +609,10 @@ func (fr *Frame) run(args []Val, bind []Val, memIn Mem, g *Term) {
 	fr.named = map[string]Val{}
 	fr.findLoops()
 	fr.computeOrdinals()
+	fr.params = args
+	if fr.entry == nil {
+		fr.entry = memIn
+	}
 	for i, p := range fn.Params {
 		fr.vals[p] = args[i]
 	}
